@@ -45,55 +45,77 @@ class _AssertionSub(AssertionError):
 _RAISED = []
 
 
-def _raise_cls(f, sid, cls):
-    """What a raising on_computed subscriber does (model: CbRaise cls).  Every class is an Exception
-    subclass; XAssertion comes from a failing `assert`, the way user callbacks produce it."""
+def _make_exc(f, n, cls):
+    """An Exception instance of class `cls` (model: Futures.xcls).  Every class is an Exception subclass;
+    XAssertion comes from a failing `assert`, the way user code produces it."""
     if cls == "XUser":
-        e = VErr(900 + sid)
-    elif cls == "XAssertion":
+        return VErr(n)
+    if cls == "XAssertion":
         try:
-            assert f is None, "subscriber %d: sanity check failed" % sid
-            e = AssertionError("subscriber %d" % sid)        # only under python -O
+            assert f is n, "%d: sanity check failed" % n
         except AssertionError as x:
-            e = x
-    elif cls == "XAssertionSub":
-        e = _AssertionSub("subscriber %d" % sid)
-    elif cls == "XValue":
-        e = ValueError(sid)
-    elif cls == "XKey":
+            return x
+        return AssertionError("%d" % n)        # only under python -O
+    if cls == "XKey":
         try:
-            e = KeyError(sid)
-            {}[sid]
+            {}[n]
         except KeyError as x:
-            e = x
-    elif cls == "XIndex":
-        e = IndexError(sid)
-    elif cls == "XType":
-        e = TypeError(sid)
-    elif cls == "XAttribute":
-        e = AttributeError(sid)
-    elif cls == "XZeroDivision":
-        e = ZeroDivisionError(sid)
-    elif cls == "XOSError":
-        e = OSError(sid)
-    elif cls == "XRuntime":
-        e = RuntimeError(sid)
-    elif cls == "XNotImplemented":
-        e = NotImplementedError(sid)
-    elif cls == "XStopIteration":
-        e = StopIteration(sid)
-    elif cls == "XAlreadyComputed":
-        e = FutureIsAlreadyComputed(f)
-    elif cls == "XBatching":
-        e = BatchingError(sid)
-    elif cls == "XBatchCancelled":
-        e = BatchCancelledError(sid)
-    elif cls == "XCustom":
-        e = _Custom(sid)
-    else:
-        raise ValueError(cls)
+            return x
+    if cls == "XAlreadyComputed":
+        return FutureIsAlreadyComputed(f)      # fabricated by user code, about some future
+    table = {"XAssertionSub": _AssertionSub, "XValue": ValueError, "XIndex": IndexError, "XType": TypeError,
+             "XAttribute": AttributeError, "XZeroDivision": ZeroDivisionError, "XOSError": OSError, "XRuntime": RuntimeError,
+             "XNotImplemented": NotImplementedError, "XStopIteration": StopIteration, "XBatching": BatchingError,
+             "XBatchCancelled": BatchCancelledError, "XCustom": _Custom}
+    return table[cls](n)
+
+
+def _raise_cls(f, sid, cls):
+    """What a raising on_computed subscriber does (model: CbRaise cls)."""
+    e = _make_exc(f, 900 + sid, cls)
     _RAISED.append((e, sid, cls))
     raise e
+
+
+# exceptions raised by providers / bodies of the current case: (exception object, injected id)
+_PROVIDED = []
+_PROMISE = []
+
+
+def _second_resolver(v=0):
+    """PDouble: the computation is the SECOND resolver of a promise shared with another lazy resolver, which has
+    already resolved it: promise.set_value() raises a genuine FutureIsAlreadyComputed(promise) out of the computation."""
+    if not _PROMISE:
+        promise = FutureBase()
+
+        def first():
+            promise.set_value(1)
+            return 1
+        assert Future(first).value() == 1 and promise.value() == 1
+        _PROMISE.append(promise)
+    _PROMISE[0].set_value(2)
+    raise RuntimeError("the promise accepted a second resolution")    # not reached
+
+
+def _end_computation(po, provlog, generator=False, batch=False):
+    """What one run of a provider / task body / flush body does at its end (model: Futures.pout); records what it
+    did in provlog (for the monitors).  generator=True: a generator body - a raised StopIteration reaches the task
+    as a new RuntimeError (PEP 479)."""
+    if po == "PDouble":
+        provlog.append({"Err": [-3]})
+        _second_resolver()
+    (k, a), = po.items()
+    if k == "PRet":
+        provlog.append({"Ok": ["VNone" if batch else a[0]]})
+        return pyval(a[0])
+    if k == "PRaise":
+        cls, n = a
+        provlog.append({"Err": [E_RUNTIME if generator and cls == "XStopIteration" else n]})
+        e = _make_exc(None, n, cls)
+        _PROVIDED.append((e, n))
+        raise e
+    provlog.append({"Base" if not (generator or batch) else "Err": [a[0]]})
+    raise VBase(a[0])
 
 
 def pyval(t):
@@ -117,6 +139,9 @@ def exn_id(e):
     for x, sid, cls in _RAISED:
         if x is e:
             return {"FromSubscriber": [sid, {"s": cls}]}
+    for x, n in _PROVIDED:
+        if x is e:
+            return n
     if isinstance(e, (VErr, VBase)):
         return e.vid
     if isinstance(e, FutureIsAlreadyComputed):
@@ -341,14 +366,7 @@ def run_susp(c):
                         raise VErr(a[0])
                     raise VBase(a[0])
                 raise
-        (k, a), = fin.items()
-        if k == "PRet":
-            provlog.append({"Ok": [a[0]]})
-            return pyval(a[0])
-        provlog.append({"Err": [a[0]]})
-        if k == "PRaise":
-            raise VErr(a[0])
-        raise VBase(a[0])
+        return _end_computation(fin, provlog, generator=True)
 
     task = body.asynq()
     holder["t"] = task
@@ -425,14 +443,7 @@ def run_batch(c):
                     raise                       # a plain `for item: item.set_value(...)` body: the exception ends it
                 inner_res.append(r)
                 point("post", "in", j, name, {"t": idx + 1, "r": r})
-        (k, a), = fin.items()
-        if k == "PRet":
-            provlog.append({"Ok": ["VNone"]})    # the batch's value is None whatever _flush returns
-            return pyval(a[0])
-        provlog.append({"Err": [a[0]]})
-        if k == "PRaise":
-            raise VErr(a[0])
-        raise VBase(a[0])
+        return _end_computation(fin, provlog, batch=True)    # the batch's value is None whatever _flush returns
 
     batch = _Batch(work)
     its = []
@@ -514,6 +525,8 @@ def run_batch(c):
 
 def run_case(c):
     del _RAISED[:]
+    del _PROVIDED[:]
+    del _PROMISE[:]
     if c["args"][0] == "KSusp":
         return run_susp(c)
     if c["args"][0] == "KBatch":
@@ -530,15 +543,7 @@ def run_case(c):
         if not script:
             provlog.append({"Ok": ["VNone"]})
             return None
-        (k, a), = script.pop(0).items()
-        if k == "PRet":
-            provlog.append({"Ok": [a[0]]})
-            return pyval(a[0])
-        if k == "PRaise":
-            provlog.append({"Err": [a[0]]})
-            raise VErr(a[0])
-        provlog.append({"Base": [a[0]]})
-        raise VBase(a[0])
+        return _end_computation(script.pop(0), provlog, generator=kind == "KTask")
 
     if kind == "KPlain":
         fut = FutureBase()
